@@ -326,22 +326,33 @@ _reg("C19", c19.run,
                 "broadcasts to that shape, and w_in is then stored with that shape; accepted nodes have defined types.",
      level_note="Lean kernel; hand-written model of __post_init__; numpy broadcasting and `ones_like * w_in` are modelled "
                 "on the dtype combinations the generators produce (same float dtype, Python float with float64).")
-_reg("C20", c20.run, translator=("T6", "T7"),
+_reg("C20", c20.run, translator=("T6", "T7"), module="NirVerif.Properties.C20Loop",
      theorems=["NirVerif.C20.zero", "NirVerif.C20.add", "NirVerif.C20.ode", "NirVerif.C20.relax", "NirVerif.C20.reset",
                "NirVerif.C20.spike_some", "NirVerif.C20.spike_none", "NirVerif.C20.cuba_euler",
-               "NirVerif.C20.record_transparent", "NirVerif.C20.recorded_value"],
+               "NirVerif.C20.record_transparent", "NirVerif.C20.recorded_value",
+               "NirVerif.C20.lif_flow", "NirVerif.C20.loop_spikes_independent", "NirVerif.C20.loop_records_independent",
+               "NirVerif.C20.loop_record_value", "NirVerif.C20.lif_spikes_independent",
+               "NirVerif.C20.lif_records_independent", "NirVerif.C20.runA", "NirVerif.C20.runB"],
      rule="Random tau in [1e-4,1], R, v_leak in [-2,2] (85% non-zero), v_threshold > v_leak, initial voltages below "
           "threshold: zero-step, split-step, long-time limit, RK4 comparison, threshold crossing of predicted spike "
           "times; event loop on 1-7 step currents with 5 recording intervals incl. non-dividing ones; CubaLIF reference "
           "on random and on exactly-representable (dyadic) parameters that land exactly on the threshold; the generated "
-          "Float twins are executed against the Python bit-for-bit.",
+          "Float twins are executed against the Python bit-for-bit; the Lean event-loop model on Float against the Python "
+          "loop bit-for-bit on schedules with crafted coincidences (input change on an accumulated record time, duplicate "
+          "change times, initial voltage on the threshold, duration exactly on an event, zero/negative duration, record_dt=inf).",
      level_text="Kernel-checked over the reals, about definitions the translator regenerates from the paper scripts: the "
                 "advance function is the flow of tau*dv/dt=(v_leak-v)+R*I (zero step = identity, additivity, the ODE "
                 "itself via HasDerivAt, convergence to v_leak+R*I), a predicted spike time is >= 0, hits the threshold "
                 "exactly and is the first crossing, `no spike` means the threshold is never reached, reset subtracts the "
                 "threshold; the numpy CubaLIF step equals the forward-Euler step of the documented equations with strict "
-                "threshold and subtractive reset. The event loop's independence from the recording interval is NOT "
-                "proved; it is checked by the oracle on the real code.",
+                "threshold and subtractive reset. The event loop (run_event_based_simulation) has a hand-written model "
+                "around the generated kernels, executed on Float against the Python loop bit for bit (spike times, "
+                "record times, recorded voltages, final voltage; coinciding events, duration on an event, no recording); "
+                "about that model it is proved by a simulation argument that any two runs with any two recording "
+                "intervals that return give the same spike list (loop_spikes_independent) and the same voltage at every "
+                "instant both record (loop_records_independent), each recorded voltage being the exact solution from the "
+                "non-recording run's state (loop_record_value). PARTIAL: over the reals; float64 rounding and that the "
+                "spike list equals the threshold crossings of the whole piecewise trajectory are left to the oracle.",
      level_note="Lean kernel + Mathlib reals (Classical.choice); translator T6/T7 validated by bitwise execution of the "
                 "generated Float twins against CPython; float64 rounding is outside the theorems.",
      assumptions=["theorems are over the reals; the scripts run in float64 (tolerances 1e-7..1e-12 in the oracle)"])
